@@ -2032,3 +2032,14 @@ M("C06-benign-trailing-return-scope-parent-in-a-local", "C06", F_Y,
   "    CPPScope *scope = new CPPScope($1->get_scope(current_scope, global_scope),\n                                   $1->_ident->_names.back(), V_private);\n",
   "    CPPScope *scope = new CPPScope($1->get_scope(current_scope, global_scope),\n                                   $1->_ident->_names.back(),\n                                   V_private);\n",
   benign=True)
+
+# ---- R02.11 (S8-C02: an overload written under `if (!DtoolInstance_IS_CONST(self))` ended the dispatch)
+F_PN = "src/interrogate/interfaceMakerPythonNative.cxx"
+MUTANTS.append({"id": "C02-guarded-overload-ends-dispatch-first-loop", "prop": "C02", "expect": "R02.11|write_function_forset|caught_all=true", "benign": False, "edits": [
+    (F_PN, "                                  check_exceptions, first_pexpr)) {\n        // The rest of the overloads are dead code.\n        if (!remap_verify_const) {\n          caught_all = true;\n          //indent(out, indent_level) << \"  // caught all cases here\\n\";\n        }\n",
+           "                                  check_exceptions, first_pexpr)) {\n        // The rest of the overloads are dead code.\n        caught_all = true;\n")]})
+MUTANTS.append({"id": "C02-guarded-overload-ends-dispatch-coercion-loop", "prop": "C02", "expect": "R02.11|write_function_forset|caught_all=true", "benign": False, "edits": [
+    (F_PN, "          if (!remap_verify_const) {\n            caught_all = true;\n", "          if (remap_verify_const) {\n            caught_all = true;\n")]})
+MUTANTS.append({"id": "C02-benign-dead-code-flag-set-by-expression", "prop": "C02", "expect": None, "benign": True, "edits": [
+    (F_PN, "        if (!remap_verify_const) {\n          caught_all = true;\n          //indent(out, indent_level) << \"  // caught all cases here\\n\";\n        }\n",
+           "        if (remap_verify_const) {\n          // written under a run-time test: the next overload is still live\n        } else {\n          caught_all = true;\n        }\n")]})
